@@ -907,6 +907,12 @@ impl Seq {
                         None => return false,
                     }
                 }
+                Stmt::Fault => {
+                    // crashes of app code are not modelled: such runs are judged without the reference
+                    g.ambiguous = Some("task fault".into());
+                    self.frames.clear();
+                    continue;
+                }
                 Stmt::Yield(n) => {
                     let left = match &frame.blk {
                         Some(Blk::Yield(k)) => *k,
